@@ -67,7 +67,9 @@ var goVers = []string{"1.18", "1.21", "1.22.0", "1.23", "1.24", "1.24.2"}
 // directories; two pairs share their last path segment (x/model, y/model and a list next to
 // container/list) so that import names have to be disambiguated
 var dirNames = []string{"a", "b", "c", "d", "api", "core", "v1", "x/model", "y/model", "list"}
-var typeNames = []string{"Alpha", "Beta", "Gamma", "Delta", "Item", "ItemList", "Node", "Opt", "T", "U", "V", "K", "lower", "Spec"}
+var typeNames = []string{"Alpha", "Beta", "Gamma", "Delta", "Item", "ItemList", "Node", "Opt", "T", "U", "V", "K", "lower", "Spec",
+	// pairs that differ only in case (the exported type and its unexported twin)
+	"opt", "item", "spec", "node", "alpha"}
 var docWords = []string{"is a thing.", "holds data", "does work; see below.", "represents state"}
 
 func drawTag(r *Rng, gen string, allowFalse bool) Tag {
